@@ -264,3 +264,14 @@ Definition validate_document (env : renv) (d : rdoc) : outcome :=
         end
       else {| o_issuer := Invalid; o_device := dev_status; o_errors := dev_errs ++ [ECertificate]; o_reported := true |}
   end.
+
+(* ---------- the whole response: which document ---------- *)
+
+(* reader.rs get_document (the document that is authenticated) and parse_namespaces (the document whose
+   elements are reported) each select `documents.iter().find(|doc| doc.doc_type == "org.iso.18013.5.1.mDL")`;
+   the translator checks on every run that both still have exactly this shape (item reader_document_lookup) *)
+Definition mdl_doc_type : bytes := bytes_of_string "org.iso.18013.5.1.mDL".
+Definition select_document (docs : list rdoc) : option rdoc :=
+  find (fun d => bytes_eqb (rd_doc_type d) mdl_doc_type) docs.
+Definition authenticated_document (docs : list rdoc) : option rdoc := select_document docs.
+Definition reported_document (docs : list rdoc) : option rdoc := select_document docs.
